@@ -39,7 +39,12 @@ fn op_bound() -> Duration {
     (CONNECT_TIMEOUT + REQUEST_TIMEOUT) * 21
 }
 
-fn run_one(cx: &Ctx<'_>, cfg: &NetCfg, ops: &[Op], prefix: &[usize], allow_dev: bool, allow_events: bool) -> Exec {
+thread_local! {
+    static DIAG_TRACE: std::cell::RefCell<Value> = std::cell::RefCell::new(Value::Null);
+}
+
+fn run_one(cx: &Ctx<'_>, cfg: &NetCfg, ops: &[Op], prefix: &[usize], allow_dev: bool, allow_events: bool, order: u8) -> Exec {
+    vh::netsim::choose_peer_order(order);
     let rt = paused_runtime();
     let out = rt.block_on(async {
         let net = build_net(cfg).await;
@@ -193,6 +198,16 @@ fn run_one(cx: &Ctx<'_>, cfg: &NetCfg, ops: &[Op], prefix: &[usize], allow_dev: 
                 break;
             }
         }
+        if ch.diverged() {
+            // the recorded prefix could not be replayed: not an execution of the explored space, not judged
+            for h in hs.iter().chain(bg_tasks.iter()) {
+                h.abort();
+            }
+            for h in stop_task.iter().flatten() {
+                h.abort();
+            }
+            return Exec { diverged: true, points: ch.points, obs: 0 };
+        }
         // ---- epilogue (part of every execution): each node's DHT layer still answers a local query, and stop()
         // on every node that was not stopped yet returns within its bound
         let mut stuck_nodes: Vec<usize> = Vec::new();
@@ -274,6 +289,9 @@ fn run_one(cx: &Ctx<'_>, cfg: &NetCfg, ops: &[Op], prefix: &[usize], allow_dev: 
             }
         }
         cx.distinct.eval();
+        if std::env::var_os("VH_C20_DIAG").is_some() {
+            DIAG_TRACE.with(|t| *t.borrow_mut() = trace_json(&world.trace()[trace0..], &net.names));
+        }
         let wit = |extra: Value| json!({"config": cfg.json(), "concurrent_ops": ops.iter().map(opj).collect::<Vec<_>>(), "schedule": prefix, "choices": ch.points.iter().filter(|p| p.chosen != 0).map(|p| p.desc.clone()).collect::<Vec<_>>(), "detail": extra, "trace": trace_json(&world.trace()[trace0..], &net.names)});
         let mut obs: Vec<String> = Vec::new();
         for i in &stuck_nodes {
@@ -363,7 +381,8 @@ fn main() {
     let thorough = run.tier == Tier::Thorough;
     let cx = Ctx { run: &run, distinct: &distinct, execs: &execs };
     // (config, ops, deviation bound, events allowed)
-    let mut work: Vec<(NetCfg, Vec<Op>, usize, bool)> = Vec::new();
+    // the last field is the goodbye order of stop() (1 ascending / 2 descending peer ids): both in thorough, alternating in quick
+    let mut work: Vec<(NetCfg, Vec<Op>, usize, bool, u8)> = Vec::new();
     for n in 2..=run.tier.pick(3, 4) {
         let graphs: Vec<Vec<(usize, usize)>> = if n <= 3 { connected_graphs(n) } else { vec![(0..n).flat_map(|a| (a + 1..n).map(move |b| (a, b))).collect(), (0..n - 1).map(|a| (a, a + 1)).collect(), (1..n).map(|b| (0, b)).collect()] };
         for g in graphs {
@@ -377,7 +396,7 @@ fn main() {
                 menu.push(Op::Ping { node, peer: (node + 1) % n });
             }
             // all sets of 1..=max concurrent ops (non-decreasing index sequences = multisets)
-            let max_ops = if n <= 2 { run.tier.pick(2, 3) } else { run.tier.pick(2, 2) };
+            let max_ops = if n <= 3 { run.tier.pick(2, 3) } else { 2 };
             let mut sets: Vec<Vec<usize>> = (0..menu.len()).map(|i| vec![i]).collect();
             let mut cur = sets.clone();
             for _ in 1..max_ops {
@@ -395,9 +414,15 @@ fn main() {
             for s in sets {
                 let ops: Vec<Op> = s.iter().map(|i| menu[*i].clone()).collect();
                 // bound 1 with stop/silence events and delivery deviations on every item; bound 2 on the small ones
-                let bound = if thorough && n == 2 && ops.len() <= 2 { 2 } else { 1 };
+                let bound = if thorough && ((n == 2 && ops.len() <= 3) || (n == 3 && ops.len() <= 1)) { 2 } else { 1 };
                 let bound = if !thorough && n == 3 && ops.len() == 2 { 1 } else { bound };
-                work.push((cfg.clone(), ops, bound, true));
+                if thorough {
+                    work.push((cfg.clone(), ops.clone(), bound, true, 1));
+                    work.push((cfg.clone(), ops, bound, true, 2));
+                } else {
+                    let order = 1 + (work.len() % 2) as u8;
+                    work.push((cfg.clone(), ops, bound, true, order));
+                }
             }
         }
     }
@@ -406,29 +431,50 @@ fn main() {
         let edges: Vec<(usize, usize)> = (0..n).flat_map(|a| (a + 1..n).map(move |b| (a, b))).collect();
         let prefix: Vec<u32> = (0..n as u32).map(|i| 1 + i).collect();
         let cfg = NetCfg { n, edges, prefix, bits: 4, k: 8, distinct_app_id: true, silent: vec![false; n] };
-        work.push((cfg.clone(), vec![Op::FindNode { node: 0, key: 0 }, Op::Put { node: 1, key: 0 }, Op::Get { node: 2, key: 0 }], 0, false));
+        work.push((cfg.clone(), vec![Op::FindNode { node: 0, key: 0 }, Op::Put { node: 1, key: 0 }, Op::Get { node: 2, key: 0 }], 0, false, 1));
         let mut c2 = cfg.clone();
         c2.silent[n - 1] = true;
         c2.silent[n - 2] = true;
-        work.push((c2, vec![Op::Put { node: 0, key: 1 }, Op::Get { node: 1, key: 1 }, Op::FindNode { node: 2, key: 1 }], 0, false));
+        work.push((c2, vec![Op::Put { node: 0, key: 1 }, Op::Get { node: 1, key: 1 }, Op::FindNode { node: 2, key: 1 }], 0, false, 2));
     }
     let parent = run.fan_out(n_workers());
     let mut total = ExploreStats::default();
     let mut done = 0u64;
     let mut samples: Vec<Value> = Vec::new();
     if parent.is_none() {
-        for (wi, (cfg, ops, bound, events)) in work.iter().enumerate() {
+        for (wi, (cfg, ops, bound, events, order)) in work.iter().enumerate() {
             if !run.mine(wi) {
                 continue;
             }
             if budget.exceeded() {
                 break;
             }
-            let mut f = |p: &[usize]| run_one(&cx, cfg, ops, p, *bound > 0, *events);
+            if std::env::var_os("VH_C20_DIAG").is_some() {
+                // diagnostic: every bound-1 prefix is run twice; differing choice-point sequences are printed
+                let base = run_one(&cx, cfg, ops, &[], *bound > 0, *events, *order);
+                for i in 0..base.points.len() {
+                    for alt in 0..base.points[i].alts {
+                        let mut p: Vec<usize> = base.points[..i].iter().map(|q| q.chosen).collect();
+                        p.push(alt);
+                        let a = run_one(&cx, cfg, ops, &p, *bound > 0, *events, *order);
+                        let ta = DIAG_TRACE.with(|t| t.borrow().clone());
+                        let b = run_one(&cx, cfg, ops, &p, *bound > 0, *events, *order);
+                        let tb = DIAG_TRACE.with(|t| t.borrow().clone());
+                        let da: Vec<&String> = a.points.iter().map(|q| &q.desc).collect();
+                        let db: Vec<&String> = b.points.iter().map(|q| &q.desc).collect();
+                        if da != db || ta != tb {
+                            eprintln!("DIAG-DIFF item={wi} cfg={} ops={:?} prefix={:?}\nA={}\nB={}", cfg.json(), ops, p, ta, tb);
+                        }
+                    }
+                }
+                done += 1;
+                continue;
+            }
+            let mut f = |p: &[usize]| run_one(&cx, cfg, ops, p, *bound > 0, *events, *order);
             let st = explore(*bound, &budget, &mut f);
             if done == 0 {
-                let a = run_one(&cx, cfg, ops, &[], *bound > 0, *events);
-                let b = run_one(&cx, cfg, ops, &[], *bound > 0, *events);
+                let a = run_one(&cx, cfg, ops, &[], *bound > 0, *events, *order);
+                let b = run_one(&cx, cfg, ops, &[], *bound > 0, *events, *order);
                 if a.obs != b.obs || a.points.len() != b.points.len() {
                     run.machinery_error(format!("replay self-check failed on {:?} {:?}", cfg.json(), ops));
                 }
@@ -440,7 +486,7 @@ fn main() {
             total.choice_points += st.choice_points;
             total.max_len = total.max_len.max(st.max_len);
             if samples.len() < 2 {
-                samples.push(json!({"config": cfg.json(), "concurrent_ops": ops.iter().map(opj).collect::<Vec<_>>(), "deviation_bound": bound, "executions": st.executions, "max_schedule_len": st.max_len}));
+                samples.push(json!({"config": cfg.json(), "concurrent_ops": ops.iter().map(opj).collect::<Vec<_>>(), "deviation_bound": bound, "goodbye_order": order, "executions": st.executions, "max_schedule_len": st.max_len}));
             }
             done += 1;
         }
@@ -481,7 +527,7 @@ fn main() {
         ("distinct_nontrivial", json!(distinct.distinct())),
         ("rule", json!("states/transitions = scheduler choice points executed on the real nodes; distinct = distinct (per-operation outcome, stop duration, virtual duration class) observations")),
         ("bounds", json!({"work_items_total": work.len(), "work_items_completed": items, "executions": executions,
-                           "deviations": "every single deviation (out-of-order delivery, drop, early timeout, stop() on any node, a peer silent from now on) at every choice point; two on 2-node items in thorough; larger full meshes (6..12 nodes) in the default environment only"})),
+                           "deviations": "every single deviation (out-of-order delivery, drop, early timeout, stop() on any node, a peer silent from now on) at every choice point; two on 2-node items and on 3-node items with one operation in thorough; both goodbye orders of stop() in thorough; larger full meshes (6..12 nodes) in the default environment only"})),
     ]);
     run.finish(
         coverage,
